@@ -1456,6 +1456,107 @@ func checkExistsAndRegistry(w *World, r *Report) {
 	}
 	r.Counts["Load methods that read files"] = n9
 
+	// R15.11: "not found" is an answer of the file system, not of a memo.  In a file-reading Load
+	// no failing return is control dependent on a lookup in a map the loader keeps: a name that
+	// was missing once (an optional include rendered before the file was written) would stay
+	// missing although the file is there now — with caching off, in development mode, whatever.
+	n11 := 0
+	for _, fn := range w.pkgFuncs() {
+		if fn.Name() != "Load" || fn.Signature.Recv() == nil || fn.Synthetic != "" {
+			continue
+		}
+		rt := fn.Signature.Recv().Type()
+		if !types.Implements(rt, iface) && !types.Implements(types.NewPointer(deref(rt)), iface) {
+			continue
+		}
+		direct := false
+		instrsOf(fn, func(in ssa.Instruction) {
+			if c, ok := in.(ssa.CallInstruction); ok {
+				if g := calleeFunc(c); g != nil && g.Pkg() != nil && g.Pkg().Path() == "os" {
+					direct = true
+				}
+			}
+		})
+		if !direct {
+			continue
+		}
+		memoLookup := func(v ssa.Value) string {
+			found := ""
+			seen := map[ssa.Value]bool{}
+			var walk func(v ssa.Value, d int)
+			walk = func(v ssa.Value, d int) {
+				if v == nil || seen[v] || d > 6 || found != "" {
+					return
+				}
+				seen[v] = true
+				if l, ok := v.(*ssa.Lookup); ok {
+					if _, isMap := l.X.Type().Underlying().(*types.Map); isMap {
+						if u, ok := l.X.(*ssa.UnOp); ok {
+							if fa, ok := u.X.(*ssa.FieldAddr); ok {
+								t, f := fieldOfAddr(fa)
+								found = t + "." + f
+								return
+							}
+						}
+					}
+				}
+				if in, ok := v.(ssa.Instruction); ok {
+					if _, isCall := v.(*ssa.Call); isCall {
+						return // what a call answers is not the memo's verdict
+					}
+					for _, op := range in.Operands(nil) {
+						if *op != nil {
+							walk(*op, d+1)
+						}
+					}
+				}
+			}
+			walk(v, 0)
+			return found
+		}
+		instrsOf(fn, func(in ssa.Instruction) {
+			ret, ok := in.(*ssa.Return)
+			if !ok {
+				return
+			}
+			res := retResults(ret)
+			if len(res) == 0 || !errorSurelyNonNil(res[len(res)-1], ret.Block()) {
+				return
+			}
+			n11++
+			construct := "a failing return is not decided by a memo"
+			bad := ""
+			for _, c := range controllingConds(in) {
+				if m := memoLookup(c); m != "" {
+					bad = m
+				}
+			}
+			if bad != "" {
+				// … unless the file system was asked on every way to this return as well
+				osCall := func(x ssa.Instruction) bool {
+					c, ok := x.(ssa.CallInstruction)
+					if !ok {
+						return false
+					}
+					if _, isDefer := x.(*ssa.Defer); isDefer {
+						return false
+					}
+					g := calleeFunc(c)
+					return g != nil && g.Pkg() != nil && g.Pkg().Path() == "os"
+				}
+				if unasked, _ := existsPathAvoiding(fn, in, osCall, nil); !unasked {
+					bad = ""
+				}
+			}
+			if bad == "" {
+				r.ok("R15.11", ssaName(fn), construct, w.posOf(ret.Pos()), "not decided by a memo alone: the file system is asked on every path, or no memo controls the return", true)
+			} else {
+				r.bad("R15.11", ssaName(fn), construct, w.posOf(ret.Pos()), "whether Load fails here depends on a lookup in "+bad+": a name remembered as missing stays missing after the file has appeared, so an include of it keeps rendering nothing (or keeps failing) whatever the cache and reload settings are")
+			}
+		})
+	}
+	r.Counts["failing returns of file-reading Load methods"] = n11
+
 	// R15.6
 	nStores := 0
 	for _, fn := range w.pkgFuncs() {
